@@ -581,12 +581,55 @@ def unknown_value(r, depth=2):
     return ("map", wire_tt(a), wire_tt(b), [(a, b)] * r.randrange(0, 2))
 
 
+def retype_elems(v):
+    """the same container with another element type on the wire (writer declared list<i64>, reader list<i32>)"""
+    k = v[0]
+    swap = {"i32": ("i64", lambda x: ("i64", x[1])), "i64": ("i32", lambda x: ("i32", x[1] % 1000)), "i8": ("i16", lambda x: ("i16", x[1])),
+            "i16": ("i32", lambda x: ("i32", x[1])), "binary": ("i32", lambda x: ("i32", len(x[1]))), "bool": ("i8", lambda x: ("i8", int(x[1])))}
+    if k in ("list", "set") and v[1] in swap and v[2]:
+        t, f = swap[v[1]]
+        return (k, t, [f(x) for x in v[2]])
+    if k == "map" and v[2] in swap and v[3]:
+        t, f = swap[v[2]]
+        return ("map", v[1], t, [(a, f(b)) for a, b in v[3]])
+    return None
+
+
+def hazards(items, it, w):
+    """known defects a writer-side value can run into (see known_findings.json): D29 a union variant whose wire
+    type differs from the declared type is decoded anyway; D26 container element types are not checked"""
+    hz = set()
+    known = {f["id"]: f for f in it["fields"]}
+    for i, x in w[1]:
+        f = known.get(i)
+        if f is None or f["ty"] is None:
+            continue
+        if wire_tt(x) != ttype(items, f["ty"]):
+            if it["kind"] == "union":
+                hz.add("D29")
+        elif x[0] in ("list", "set", "map"):
+            ty = f["ty"]
+            while ty[0] == "ref" and items[ty[1]]["kind"] == "typedef":
+                ty = items[ty[1]]["ty"]
+            if x[0] in ("list", "set") and x[1] != ttype(items, ty[1]):
+                hz.add("D26")
+            if x[0] == "map" and (x[1] != ttype(items, ty[1]) or x[2] != ttype(items, ty[2])) and x[3]:
+                hz.add("D26")
+    return hz
+
+
 def evolve(items, it, v, r):
     """rewrite a conforming struct value as a writer with a different schema would have sent it"""
     fs = list(v[1])
     declared = {f["id"] for f in it["fields"]}
     for _ in range(r.randrange(1, 4)):
-        c = r.randrange(5)
+        c = r.randrange(6)
+        if c == 5 and fs:     # same field, same container kind, another element type
+            j = r.randrange(len(fs))
+            nv = retype_elems(fs[j][1])
+            if nv is not None:
+                fs[j] = (fs[j][0], nv)
+            continue
         if c == 0:      # unknown field inserted anywhere
             i = r.choice([x for x in [r.randrange(1, 60), 999, 32000, -1] if x not in declared] or [9999])
             fs.insert(r.randrange(len(fs) + 1), (i, unknown_value(r)))
